@@ -187,6 +187,21 @@ CLAIMED = {
         "DESIGN.md §5 C15",
         "Accept/reject of mutated sequences is decided only over the operator-core vocabulary; nesting deeper than 3 is sampled.",
         "TLA+ grammar/precedence model with reference parser, TLC-checked print/parse laws + replay of trees and spans"),
+    "C16": E("model_checking",
+        "spec/Spans.tla models the span table of rsjsonnet-lang/src/span.rs with exact big naturals (pairs in base 2^20): "
+        "contexts as cumulative ends, ids as the 64-bit word (inline offset+1 | len<<38, or interned index), Intern/Get; "
+        "TLC checks RoundTrip (every id ever issued decodes to its triple), Canonical, TableTight over magnitudes around "
+        "2^25 and 2^38 up to 2^40 and must reject three deliberately wrong variants; every script is replayed on the real "
+        "SpanManager. SpansArith.tla (Apalache) checks the pack/unpack arithmetic over unbounded integers. Every span of "
+        "every error and stack-trace entry of generated failing programs (ui-tests/fail, mutated programs, an error-kind x "
+        "surroundings family incl. first/last byte, EOF, multi-byte, CRLF, tabs, imported files, stdlib) is validated "
+        "against spec/Trace_Spans.tla (0 <= start <= end <= length of the named source). Rendering through the binary, "
+        "plain and coloured, for every --max-trace value: exit 1, no panic, header, file:line:col of the primary span, "
+        "shown/hidden trace notes = Crop(n, t) of the spec.",
+        "DESIGN.md §5 C16",
+        "Columns are compared exactly only when the line prefix is printable ASCII; the renderer panic on zero-width "
+        "characters is the recorded known finding F18.",
+        "TLA+ span-table model (TLC + Apalache) with replay; trace validation of error spans; render checks against the binary"),
     "C17": E("model_checking",
         "spec/SortSet.tla defines Sort (unique stable ordered permutation), Uniq, Set, set operations by key, "
         "MinArray/MaxArray declaratively; TLC checks permutation/ordered/stable/idempotence/upstream-definition laws and "
